@@ -58,7 +58,7 @@ def gen_plan(rng, index, tier):
         uid += 1
         r = rng.random()
         if r < 0.16 and depth < 4:
-            steps.append({"op": "enter", "level": rng.choice(["reactor", "core", "assembly", "block", "component"]), "idx": rng.randrange(1000), "keep": sorted(rng.sample(KEEP_CANDIDATES, rng.choice([0, 0, 1, 2, 3]))), "coldcache": rng.random() < 0.5, "keepLevel": rng.choice([None, None, "block", "assembly", "core", "component"])})
+            steps.append({"op": "enter", "level": rng.choice(["reactor", "core", "assembly", "block", "component"]), "idx": rng.randrange(1000), "keep": sorted(rng.sample(KEEP_CANDIDATES, rng.choice([0, 0, 1, 2, 3]))), "coldcache": rng.random() < 0.5, "pendingHeat": rng.random() < 0.25, "keepLevel": rng.choice([None, None, "block", "assembly", "core", "component"])})
             depth += 1
         elif r < 0.19 and depth < 3:
             # two nested scopes on one object that keep the same parameter; it is assigned in the
@@ -554,11 +554,30 @@ class Runner:
             for b in ablks:
                 b.clearCache()
             areas = [float(b.getArea()) for b in ablks]
+            from armi.reactor.components import DerivedShape
+
+            derived = [c for b in ablks for c in b if isinstance(c, DerivedShape)]
+            dvols = [float(c.getVolume()) for c in derived]
             if st.get("coldcache"):
                 # the scope opens on objects whose caches are empty (fresh from a load, or just cleared)
                 for b in ablks:
                     b.clearCache()
                 self.probe("scope_entered_with_empty_caches")
+        pending = False
+        if st.get("pendingHeat") and not names and ablks and not self.readonly:
+            # something changed just before the scope opens and nobody has looked yet: a recomputation
+            # of derived quantities is pending at entry (the reference values above no longer apply)
+            from armi.reactor.flags import Flags
+
+            for b in ablks:
+                cl = b.getComponent(Flags.CLAD)
+                if cl is not None:
+                    cl.setTemperature(float(cl.temperatureInC) + 11.0)
+                    pending = True
+            if pending:
+                areas = None
+                vols = None
+                self.probe("scope_entered_with_a_pending_recomputation")
         # the state at entry (reading parameters fills no cache)
         want = snapshot(o)
         edits0 = self.edits
@@ -606,7 +625,19 @@ class Runner:
                 how="exception" if how == "exit_exc" else "normal",
             )
             break
+        if pending and not diffs:
+            # whatever was cached or recomputed inside, afterwards the cached values are the fresh ones
+            for b in ablks:
+                cached_v = [float(c.getVolume()) for c in b]
+                b.clearCache()
+                fresh_v = [float(c.getVolume()) for c in b]
+                if any(abs(x - y) > 1e-9 * max(1.0, abs(y)) for x, y in zip(cached_v, fresh_v)):
+                    self.fail("C16.cache", f"after the scope the components of {b.getName()} report the volumes {cached_v}; computed afresh they are {fresh_v} (a recomputation was pending when the scope opened and the volumes were looked at inside)", what="stale-after-scope")
+                    break
         if areas is not None and not diffs:
+            dafter = [float(c.getVolume()) for c in derived]
+            if any(abs(a - b) > 1e-9 * max(1.0, abs(a)) for a, b in zip(dvols, dafter)):
+                self.fail("C16.cache", f"the volume of a coolant that fills the rest of its block, computed inside the scope, leaked out of it: {dvols} before, {dafter} after (parameters are restored)", what="derived-volume")
             after = [float(b.getArea()) for b in ablks]
             if any(abs(a - b) > 1e-9 * max(1.0, abs(a)) for a, b in zip(areas, after)):
                 self.fail("C16.cache", f"a block area cached inside the scope leaked out of it: {areas} before, {after} after (parameters are restored)", what="area")
